@@ -40,8 +40,14 @@ def switch_mask(node, pt=None):
     return {'>': 1, '>=': 1, '<': 0, '<=': 0}.get(op)
 
 
+EXPLANATION += ' R14.7 no integer-literal power (negative, or >= 3) is taken of a quantity that stays an integer when the arguments are integers (numba types arithmetic by its arguments: 0 for a negative power, silent int64 wrap-around for a large one).'
+TECHNIQUE += '; syntactic type flow in numba-compiled kernels (integer-literal powers of integer-typed arguments)'
+
 def run(chk):
     repo = Repo(chk.repo)
+    # R14.7: integer arguments are values like any other; numba keeps them integers until they meet a float (an integer-literal power is taken first)
+    from .common import int_power_lint
+    int_power_lint(chk, repo, 'R14.7', ['TidalPy/tides/potential/*.py'])
     it = Interp(repo)
     r = X.atom('radius', 'pos'); lon = X.atom('longitude'); col = X.atom('colatitude'); t = X.atom('time')
     n = X.atom('n', 'pos'); o = X.atom('o'); e = X.atom('e', 'pos'); ob = X.atom('obliquity'); M = X.atom('host_mass', 'pos'); a = X.atom('a', 'pos')
